@@ -39,8 +39,12 @@ Definition check_hor (c : list Q * list (list bool)) : bool :=
 """
 
 
+TRANSLATORS = [('pyx_visibility', 'VisibilityK')]
+
+
 def theorems(ctx):
     ctx.modelled += MODELLED
+    ctx.generate(TRANSLATORS)
     ctx.theorems()
     if ctx.tier == "thorough":
         ctx.coqchk()
